@@ -53,6 +53,28 @@ def limbs_of_array(arr):
 FORMS = ("pow", "exp", "lin", "lnsq", "inv")
 
 
+def dep_closure(form, a, b, c):
+    """the same formulas as a factory-made closure WITHOUT free parameters: every such function
+    has the same __name__ and an empty parameter dict (so the same repr), whatever constants
+    it captured - as lambdas / closures written by users do"""
+    if form not in FORMS:
+        raise Machinery(f"unknown dependence form {form}")
+
+    def dep(x):
+        ax = np.abs(x)
+        if form == "pow":
+            return a + b * ax ** c
+        if form == "exp":
+            return a + b * np.exp(-c * ax)
+        if form == "lin":
+            return a + b * x
+        if form == "lnsq":
+            return np.log(a + b * np.sqrt(ax))
+        return 1.0 / (a + b * ax)
+
+    return dep
+
+
 def dep_function(form, a, b, c):
     if form == "pow":
         def f(x, a=a, b=b, c=c):
@@ -150,7 +172,16 @@ STRUCTURES = {2: [[None, None], [None, 0]],
               3: [[None, c1, c2] for c1 in (None, 0) for c2 in (None, 0, 1)]}
 
 
+_EXTRA_CLASSES = {}
+
+
 def family_class(vc, fam):
+    if fam == "Beta":  # a user distribution derived from the shipped ScipyDistribution base class
+        if "Beta" not in _EXTRA_CLASSES:
+            class BetaDistribution(vc.distributions.ScipyDistribution):
+                scipy_dist_name = "beta"
+            _EXTRA_CLASSES["Beta"] = BetaDistribution
+        return _EXTRA_CLASSES["Beta"]
     return getattr(vc.distributions, fam + "Distribution")
 
 
@@ -180,7 +211,8 @@ def build_model(vc, dims):
             descs.append({"distribution": cls(**d["params"])})
         else:
             dist = cls(**{"f_" + k: v for k, v in d["fixed"].items()})
-            par = {k: vc.DependenceFunction(dep_function(*v)) for k, v in d["dep"].items()}
+            mk = dep_closure if d.get("closure") else dep_function
+            par = {k: vc.DependenceFunction(mk(*v)) for k, v in d["dep"].items()}
             descs.append({"distribution": dist, "conditional_on": d["cond"], "parameters": par})
     return vc.GlobalHierarchicalModel(descs)
 
@@ -479,8 +511,13 @@ def make_contour_case(vc, rng, cfg, cells2, cells3):
 
 def case_key(case):
     if case["kind"] == "hdc":
-        return (f"{model_key(case['model'])} alpha={case['alpha']} limits={case['limits']} "
-                f"deltas={case['deltas']} params={_params_digest(case['model'])}")
+        k = (f"{model_key(case['model'])} alpha={case['alpha']} limits={case['limits']} "
+             f"deltas={case['deltas']} params={_params_digest(case['model'])}")
+        if any(d.get("closure") for d in case["model"]):
+            k += " dep=closures"
+        if case.get("prelude"):
+            k += " evaluated-after=" + ";".join(_params_digest(c["model"]) for c in case["prelude"])
+        return k
     return f"sorter {case['name']} n={len(case['x'])} optimal_start={case['optimal']}"
 
 
@@ -654,3 +691,72 @@ def tiny_region_cases():
                  deltas=1.0, cfg=cfg, np_seed=None),
             dict(kind="hdc", model=[n(5.5), n(5.5)], alpha="0.3", limits=[[0.0, 10.0], [0.0, 10.0]],
                  deltas=1.0, cfg=cfg, np_seed=None)]
+
+
+def twin_cases(vc, rng, cfgs, n_pairs, cells2=(12, 45), cells3=(7, 14)):
+    """Pairs of DIFFERENT models that look alike from outside: same structure, families and
+    fixed parameters, dependence functions that are factory-made closures without free
+    parameters (same __name__, different captured constants), on exactly the same limits
+    and deltas.  Returned as the sequence A, B, A: each must be built from its own model."""
+    import copy
+    pool = [c for c in cfgs if c["grid"] == "fit" and c["deltas"] == "list" and c["limits"] == "explicit"
+            and (c["cond1"] == "zero" or c["cond2"] != "none")]
+    pool = [pool[i] for i in rng.permutation(len(pool))]
+    out = []
+    for cfg in pool[:n_pairs]:
+        a = make_contour_case(vc, rng, cfg, cells2, cells3)
+        for d in a["model"]:
+            if d["cond"] is not None:
+                d["closure"] = True
+        b = copy.deepcopy(a)
+        for d in b["model"]:
+            if d["cond"] is not None:
+                _fixed, dep = conditional_params(rng, d["family"])
+                # same forms (so the same function name), other constants
+                d["dep"] = {k: [d["dep"][k][0]] + dep[k][1:] if dep[k][0] == d["dep"][k][0]
+                            else [d["dep"][k][0]] + [round(v * float(rng.uniform(1.15, 1.6)), 3) for v in d["dep"][k][1:]]
+                            for k in d["dep"]}
+        a["cfg"] = dict(cfg, grid="twin")
+        b["cfg"] = dict(cfg, grid="twin")
+        b["prelude"] = [copy.deepcopy(a)]
+        a2 = copy.deepcopy(a)
+        a2["prelude"] = [copy.deepcopy(a), {k: v for k, v in b.items() if k != "prelude"}]
+        out += [a, b, a2]
+    return out
+
+
+def band_cases(rng, n):
+    """Bi-modal densities whose highest-density region consists of tilted, parallel bands:
+    X1 | X0 ~ U-shaped Beta(s, s) with location a + b * X0 (a ScipyDistribution subclass).
+    The pieces are disconnected, but their axis-parallel bounding boxes overlap.  Half of
+    the cases are 3-D (a further independent or conditional axis)."""
+    out = []
+    for k in range(n):
+        three = bool(k % 2)
+        s = _u(rng, 0.12, 0.2) if three else _u(rng, 0.15, 0.35)
+        scale = _u(rng, 5.0, 9.0)
+        b = _u(rng, 0.5, 1.0) * (1 if k % 4 else -1)
+        a0 = _u(rng, 0.0, 3.0) + (0 if b > 0 else 30.0)
+        mu0, sg0 = _u(rng, 8.0, 12.0), _u(rng, 1.2, 2.5)
+        dims = [dict(family="Normal", cond=None, params=dict(mu=mu0, sigma=sg0)),
+                dict(family="Beta", cond=0, fixed=dict(a=s, b=s, scale=scale), dep=dict(loc=["lin", a0, b, 0.0]))]
+        lo0, hi0 = round(mu0 - 4 * sg0, 2), round(mu0 + 4 * sg0, 2)
+        locs = [a0 + b * lo0, a0 + b * hi0]
+        limits = [[lo0, hi0], [round(min(locs) - 0.5, 2), round(max(locs) + scale + 0.5, 2)]]
+        d = [0.1, 0.2, 0.15, 0.3][(k // 2) % 4]
+        deltas = [d, float(f"{d * [1.0, 1.5][(k // 2) % 2]:.4g}")]      # slope * d0 / d1 <= 1: bands stay connected
+        if three:
+            deltas = [2 * x for x in deltas]
+            if k % 4 == 1:
+                dims.append(dict(family="Weibull", cond=None, params=dict(alpha=2.0, beta=2.2, gamma=0.0)))
+                limits.append([0.0, 5.0])
+            else:
+                dims.append(dict(family="Normal", cond=1, fixed={}, dep=dict(mu=["lin", 2.0, 0.2, 0.0],
+                                                                          sigma=["pow", 0.8, 0.0, 1.0])))
+                limits.append([round(2.0 + 0.2 * limits[1][0] - 3.0, 2), round(2.0 + 0.2 * limits[1][1] + 3.0, 2)])
+            deltas.append(float(f"{(limits[2][1] - limits[2][0]) / 9.0:.4g}"))
+        cfg = dict(dim=len(dims), cond1="zero", cond2="none", deltas="list", limits="explicit", aniso="1",
+                   grid="bands", alpha="big")
+        out.append(dict(kind="hdc", model=dims, alpha=["0.3", "0.3", "0.2", "0.25"][k % 4], limits=limits,
+                        deltas=deltas, cfg=cfg, np_seed=None))
+    return out
